@@ -67,6 +67,7 @@ func (c *clipperD) ExecuteOC(clipType ClipType, fillRule FillRule, solutionClose
 	*solutionOpen = (*solutionOpen)[:0]
 	solClosed64 := make(Paths64, 0)
 	solOpen64 := make(Paths64, 0)
+	c.usingPolyTree = false // an earlier tree execution must not change how paths are built
 
 	success := c.clipperBase.execute(clipType, fillRule, &solClosed64, &solOpen64)
 
@@ -91,6 +92,7 @@ func (c *clipperD) ExecuteWithScaleFunc(clipType ClipType, fillRule FillRule, so
 	*solutionOpen = (*solutionOpen)[:0]
 	solClosed64 := make(Paths64, 0)
 	solOpen64 := make(Paths64, 0)
+	c.usingPolyTree = false // an earlier tree execution must not change how paths are built
 
 	success := c.clipperBase.execute(clipType, fillRule, &solClosed64, &solOpen64)
 
